@@ -55,6 +55,43 @@ func runVF26(p *Prog, r *RuleRun) {
 						}
 					}
 				}
+				if prm, ok := buf.(*ssa.Parameter); ok && staticLen < 0 {
+					// a helper that is handed the buffer: every caller passes a whole array of one length
+					idx := -1
+					for i, q := range fn.Params {
+						if q == prm {
+							idx = i
+						}
+					}
+					l, n := int64(-1), 0
+					for _, caller := range p.Funcs {
+						for _, cb := range caller.Blocks {
+							for _, ci := range cb.Instrs {
+								cc, ok := ci.(ssa.CallInstruction)
+								if !ok || cc.Common().StaticCallee() != fn || idx < 0 || idx >= len(cc.Common().Args) {
+									continue
+								}
+								n++
+								al := int64(-2)
+								if sl, ok := cc.Common().Args[idx].(*ssa.Slice); ok && sl.Low == nil && sl.High == nil {
+									if pt, ok := sl.X.Type().Underlying().(*types.Pointer); ok {
+										if at, ok := pt.Elem().Underlying().(*types.Array); ok {
+											al = at.Len()
+										}
+									}
+								}
+								if l == -1 {
+									l = al
+								} else if l != al {
+									l = -2
+								}
+							}
+						}
+					}
+					if n > 0 && l >= 0 {
+						staticLen = l
+					}
+				}
 				resliced := false
 				for _, b2 := range fn.Blocks {
 					for _, i2 := range b2.Instrs {
